@@ -20,6 +20,7 @@ type PropSpec struct {
 	Functions      []string `json:"functions"`       // under contract: verified against their contracts
 	Sweep          []string `json:"sweep"`           // safety-only (no-panic) verification, default contract `requires true`
 	Lemmas         []string `json:"lemmas"`          // lemma names
+	Exclude        []string `json:"exclude"`         // function literals of listed functions that are NOT verified (named in not_decided)
 	MinObligations int      `json:"min_obligations"` // vacuity guard: the run must generate at least this many
 	NotDecided     []string `json:"not_decided"`
 	Assumptions    []string `json:"assumptions"`
@@ -105,6 +106,37 @@ func cmdCheck(args []string) {
 		}
 		sweepSet[k] = true
 		fns = append(fns, f)
+	}
+	// function literals of listed functions are verified with them
+	excluded := map[string]bool{}
+	for _, k := range spec.Exclude {
+		excluded[k] = true
+	}
+	seenFn := map[*ssa.Function]bool{}
+	for _, f := range fns {
+		seenFn[f] = true
+	}
+	var addAnon func(f *ssa.Function, swept bool)
+	addAnon = func(f *ssa.Function, swept bool) {
+		for _, a := range f.AnonFuncs {
+			if excluded[funcKey(a)] {
+				continue
+			}
+			if !seenFn[a] {
+				seenFn[a] = true
+				k := funcKey(a)
+				if C.Funcs[k] == nil || swept {
+					if C.Funcs[k] == nil {
+						sweepSet[k] = true
+					}
+				}
+				fns = append(fns, a)
+			}
+			addAnon(a, swept)
+		}
+	}
+	for _, f := range append([]*ssa.Function{}, fns...) {
+		addAnon(f, sweepSet[funcKey(f)])
 	}
 	V.SweepSet = sweepSet
 	var lemmas []*Lemma
@@ -205,6 +237,9 @@ func cmdCheck(args []string) {
 	for k := range V.GlobalsUsed {
 		trusted = append(trusted, "ground fact about a package-level variable (assumed): "+k)
 	}
+	for k := range V.TypeInvUsed {
+		trusted = append(trusted, "object invariant assumed for values reaching verified code (fields checked immutable outside the declared constructors; establishment by the constructor not verified): "+k)
+	}
 	for _, a := range V.axiomNames {
 		trusted = append(trusted, "definitional axiom of a spec function: "+a)
 	}
@@ -253,6 +288,7 @@ func cmdCheck(args []string) {
 			"fragile_over_5s":            fragile,
 			"covers_reachable":           coversSat,
 			"covers_inconclusive":        coversOther,
+			"returns_dead_under_contracts": res.DeadReturns,
 			"structure_errors":           structure,
 			"not_decided":                spec.NotDecided,
 			"bounded_standins":           spec.BoundedStandins,
